@@ -119,6 +119,37 @@ Proof.
   intro Hf. unfold cubic_one_coord. rewrite (solve_quadratic_linear_generic T S _ _ _ Hf). reflexivity.
 Qed.
 
+(** the literal model at the real instance: a zero leading coefficient yields nothing *)
+Lemma one_coord_lead0 (d0 d1 d2 : R) : oc_a d0 d1 d2 = 0 -> cubic_one_coord d0 d1 d2 = [].
+Proof.
+  intro Ha. unfold cubic_one_coord. rewrite Ha.
+  apply extrema_filter_nil. intros x Hx. apply solve_quadratic_lead0 in Hx. lra.
+Qed.
+
+(** ** the exact rescaling of proposed_fixes/C08-tiny-derivative.diff keeps all of this: at the real
+    instance the lifted [one_coord] reports only interior zeros of the same derivative *)
+Lemma oc_scale_pos (d0 d1 d2 : R) : 0 < oc_scale d0 d1 d2.
+Proof.
+  unfold oc_scale. cbv zeta. destruct (fltb _ _).
+  - cbv [oc_lift flit RS Q2R Qnum Qden].
+    assert (0 < IZR (2 ^ 600)) by (apply IZR_lt; apply Z.pow_pos_nonneg; lia).
+    rewrite Rinv_1. lra.
+  - cbv [f1 fofZ RS]. lra.
+Qed.
+
+Lemma poly2_scale (s d0 d1 d2 t : R) :
+  poly2 (d0 * s) (oc_b (d0 * s) (d1 * s)) (oc_a (d0 * s) (d1 * s) (d2 * s)) t =
+  s * poly2 d0 (oc_b d0 d1) (oc_a d0 d1 d2) t.
+Proof. unfold poly2. rewrite !oc_a_real, !oc_b_real. ring. Qed.
+
+Lemma one_coord_lifted_sound (d0 d1 d2 : R) t : In t (cubic_one_coord_lifted d0 d1 d2) ->
+  0 < t < 1 /\ poly2 d0 (oc_b d0 d1) (oc_a d0 d1 d2) t = 0.
+Proof.
+  unfold cubic_one_coord_lifted. cbv zeta. pose proof (oc_scale_pos d0 d1 d2) as Hs.
+  intro Hin. apply one_coord_sound in Hin. destruct Hin as [H01 Hg].
+  split; [exact H01|]. rewrite poly2_scale in Hg. apply Rmult_integral in Hg. destruct Hg; [lra|assumption].
+Qed.
+
 (** * velocities of the three segment kinds *)
 
 Lemma cubic_vx (x0 y0 x1 y1 x2 y2 x3 y3 t : R) :
